@@ -36,6 +36,9 @@ def hasTL2Code (d : Desc) (ty : Nat) : Bool :=
   | some (.union u) => u.hasTL2
   | _ => false
 
+/-- the harness stops a run that draws more than this many words (`randBudget` in go/hgen/rand.go.tmpl) -/
+def randBudget : Nat := 200000
+
 def handleRand : OpHandler := fun st op args =>
   match op, args with
   | "rnd", [sid, ty, _name, seed] =>
@@ -47,10 +50,22 @@ def handleRand : OpHandler := fun st op args =>
       | .error .fuel => some "diverge"
       | .error e => some ("model-" ++ errStr e)
       | .ok (v, rg) =>
+        if rg.pos > randBudget then some s!"big n={rg.pos}" else
         let w := outBytes (writeTL1 d (fuel + 1) ty false [] v)
         let w2 := if hasTL2Code d ty then "ok" else "n/a"
         some s!"ok n={rg.pos} w1b={w} w2={w2} wj=ok again=same dirty=same"
     | _, _, _ => some "bad-op"
+  | "rcert", [sid, ty] =>
+    -- T3: decidable hypotheses of the C18 theorems on the instances reachable from `ty`
+    match st.lookup sid, ty.toNat? with
+    | some sc, some ty =>
+      let d := sc.desc
+      let gi := sc.genInfo
+      let S := d.reach ty
+      let rk := d.computeFillRanks gi
+      let b (x : Bool) : String := if x then "1" else "0"
+      some s!"ok closed={b (d.closed S)} bounded={b (d.allOnI S (fun i _ => decide (rkAt rk i ≤ d.insts.size)))} ranked={b (d.allOnI S (Inst.fillRanked gi rk))} capfree={b (d.allOnI S (Inst.capFree d gi))} guard={b (d.fillGuard gi rk S)} productive={b (d.productive d.computeRanks)}"
+    | _, _ => some "bad-op"
   | _, _ => none
 
 end TLVerif.Codec
